@@ -1,9 +1,9 @@
 SPECIFICATION MCSpec
 CONSTANTS
   Certs = {"x", "y", "z"}
-  MaxBlocks = 4
-  MaxTs = 6
-  MaxE = 4
+  MaxBlocks = 3
+  MaxTs = 5
+  MaxE = 3
   Win = 2
   Fixed = TRUE
 VIEW View
